@@ -71,6 +71,10 @@ def plan(exe, tier):
         rnd("T", 8, 30, 5000, 1)
         rnd("M", 8, 30, 3000, 1)
         rnd("T", 3, 12, 4000, 1)
+        # large capacities (sparse alphabet around 16/32/64/128/256 and the ends)
+        rnd("T", 70, 40, 1500, 1)
+        rnd("M", 100, 40, 1000, 1)
+        rnd("T", 300, 30, 500, 0)
     else:
         for cap in (0, 1, 2, 3):
             exh("T", cap, 3, 1)
@@ -88,6 +92,11 @@ def plan(exe, tier):
         rnd("M", 8, 30, 100000, 1)
         rnd("T", 3, 12, 200000, 1)
         rnd("T", 5, 60, 20000, 1)
+        rnd("T", 70, 40, 40000, 1)
+        rnd("M", 100, 40, 30000, 1)
+        rnd("T", 300, 30, 10000, 1)
+        rnd("M", 40, 60, 20000, 1)
+        rnd("T", 1100, 20, 2000, 0)
     return jobs
 
 
